@@ -63,12 +63,13 @@ Theorem C04_conn_event_reaches_every_registered :
 Proof. exact conn_event_reaches_every_registered. Qed.
 Print Assumptions C04_conn_event_reaches_every_registered.
 
-(* ... RST_STREAM reaches that registered call and no other *)
+(* ... a stream reset -- RST_STREAM from the peer, or h2 resetting the stream itself after a stream-level
+   protocol violation by the peer (`remote` either way) -- reaches that registered call and no other *)
 Theorem C04_rst_reaches_that_call_only :
-  forall s c cl, nth_error s c = Some cl -> registered cl = true ->
-    (exists cl', nth_error (sstep s (LRst c)) c = Some cl'
+  forall s c cl remote, nth_error s c = Some cl -> registered cl = true ->
+    (exists cl', nth_error (sstep s (LRst c remote)) c = Some cl'
                  /\ werr (ck cl') = Some ETerminated /\ hit cl' = true)
-    /\ forall c', c' <> c -> nth_error (sstep s (LRst c)) c' = nth_error s c'.
+    /\ forall c', c' <> c -> nth_error (sstep s (LRst c remote)) c' = nth_error s c'.
 Proof. exact rst_reaches_that_call_only. Qed.
 Print Assumptions C04_rst_reaches_that_call_only.
 
@@ -153,7 +154,7 @@ Theorem C04_maybe_raise_code :
 Proof. exact maybe_raise_code. Qed.
 Print Assumptions C04_maybe_raise_code.
 
-(* the complete correspondence matrix (9600 cells incl. status and variant dimensions), inside the
+(* the complete correspondence matrix (11520 cells incl. the sixth event kind, status and variant dimensions), inside the
    model and on the generated operations: pending at quiescence EXACTLY in the D6 class; everywhere else
    the operation ends with a termination error and the call with exactly the error the property asks
    for, except the quiet-exit class (second finding) and cells asking for a refused call *)
